@@ -70,7 +70,10 @@ func Exec(t *testing.T, scn *Scenario) (r *Run, jd *Judged) {
 	func() {
 		defer func() {
 			if p := recover(); p != nil {
-				if r != nil {
+				if r == nil {
+					r = curRunOrNil()
+				}
+				if r != nil && strings.Contains(fmt.Sprint(p), "deadlock") {
 					r.Deadlock = fmt.Sprint(p)
 				} else {
 					panic(p)
